@@ -80,7 +80,7 @@ class PopenSpawn(SpawnBase):
             timeout = 1e6
 
         t0 = time.time()
-        while (time.time() - t0) < timeout and size and len(buf) < size:
+        while size and len(buf) < size:
             try:
                 incoming = self._read_queue.get_nowait()
             except Empty:
@@ -91,6 +91,10 @@ class PopenSpawn(SpawnBase):
                     break
 
                 buf += self._decoder.decode(incoming, final=False)
+            # The time limit is checked after the queue has been looked at, so
+            # that timeout=0 still picks up what has already been received.
+            if (time.time() - t0) >= timeout:
+                break
 
         r, self._buf = buf[:size], buf[size:]
 
